@@ -3,7 +3,10 @@
 Proof: Props/C10.v (invariant over all finite histories of Model/Cache.v).
 K: seeded histories of 5-40 operations on real scratch directories, run through the
 real DirHandler/UMNDirHandler cache, against the model evaluated inside Coq.
-Oracle: an independent statement of the claims on the implementation's answers."""
+Oracle: an independent statement of the claims on the implementation's answers.
+Second leg (gen_meta_job / c10_meta): one long-lived process serves several directories while their metadata files are
+edited IN PLACE (same inode / length / whole-second mtime or not), real waits on both sides of lifetimes 0, 1, 2;
+expected listings come from a fresh interpreter listing copies of the directory (same oracle, same K)."""
 import json
 import os
 
@@ -43,8 +46,8 @@ PROBES = [("http-head", b"HEAD /d HTTP/1.0\r\n\r\n", False), ("https-head", b"HE
 PROBEIDX = {k: 100 + i for i, (k, _, _) in enumerate(PROBES)}
 
 
-def probekeys():
-    return {k: {"data": gen.lat(d), "tls": tls} for k, d, tls in PROBES}
+def probekeys(sel="/d"):
+    return {k: {"data": gen.lat(d.replace(b"/d", sel.encode("latin-1"), 1)), "tls": tls} for k, d, tls in PROBES}
 
 
 POOL = ["a.txt", "b.html", "c.gif", "notes.txt", "data.bin", "z.tar.gz", "read me.txt", "Index", "x.mp3",
@@ -324,6 +327,277 @@ def history_job(life, ops):
 
 
 # ----------------------------------------------------------------------------
+# metadata edited in place, in one long-lived process
+# ----------------------------------------------------------------------------
+# Every value a field can take has the same width, so that two fillings of one shape have the same length.
+TITLES14 = ["Alpha document", "Bravo document", "Final document", "Omega document", "0 top document", "zebra crossing",
+            "The <b>old one", "Quarterly plan"]
+WORDS5 = ["plans", "notes", "music", "index", "other"]
+ABSTR = ["about the alpha file", "a word on bravo file", "this one is obsolete", "see the other folder"]
+META_FILES = ["a.txt", "b.txt", "c.txt"]
+
+
+def _link_shape(rng, cap=False):
+    """A link-file shape (which blocks, which fields); returns fill(rng) -> text."""
+    blocks = []
+    for _ in range(1 if cap else rng.randrange(1, 4)):
+        fields = []
+        if not cap:
+            fields.append("path")
+        opt = ["numb", "name", "type", "abstract"]
+        chosen = [f for f in opt if rng.random() < 0.55] or [rng.choice(opt)]
+        fields += chosen
+        rng.shuffle(fields)
+        if not cap and fields[0] != "path" and rng.random() < 0.7:
+            fields.remove("path")
+            fields.insert(0, "path")
+        blocks.append(fields)
+    remote = (not cap) and rng.random() < 0.4
+
+    def fill(r):
+        out = []
+        names = r.sample(META_FILES, len(META_FILES))
+        for bi, fields in enumerate(blocks):
+            lines = []
+            for f in fields:
+                if f == "path":
+                    lines.append("Path=./%s" % names[bi])
+                elif f == "numb":
+                    lines.append("Numb=%d" % r.randrange(0, 10))
+                elif f == "name":
+                    lines.append("Name=%s" % r.choice(TITLES14))
+                elif f == "type":
+                    lines.append("Type=%s" % r.choice(["0", "0", "1", "X", "-", "9", "h"]))
+                else:
+                    lines.append("Abstract=%s" % r.choice(ABSTR))
+            out.append("\n".join(lines) + "\n")
+        if remote:
+            out.append("Name=%s\nPath=/%s\nHost=h%d.example\nPort=7%d\nType=%s\n" % (
+                r.choice(TITLES14), r.choice(WORDS5), r.randrange(10), r.randrange(10), r.choice("01")))
+        return "\n".join(out)
+    return fill
+
+
+def meta_dirs(rng, n):
+    """n directories, each with one metadata file that will be edited: name, tree, target path, fill(rng) (all fillings of
+    one directory have the same length), pad (appended for a filling of another length)."""
+    kinds = ["links", "names", "dotfile", "cap", "abstract", "keywords", "html-title", "gophermap", "links", "names", "cap"]
+    rng.shuffle(kinds)
+    dirs = []
+    for i in range(n):
+        kind = kinds[i % len(kinds)]
+        name = "m%d" % i
+        tree = [{"path": name, "kind": "dir"}]
+        for j, fn in enumerate(META_FILES):
+            tree.append({"path": "%s/%s" % (name, fn), "data": "text %d\n" % j * (j + 1), "mtime": T0 + j})
+        tree.append({"path": name + "/sub", "kind": "dir", "mtime": T0 + 5})
+        tree.append({"path": name + "/b.html", "data": "<html><head><title>Static title</title></head></html>\n", "mtime": T0 + 6})
+        pad = "# a remark\n"
+        if kind in ("links", "names", "dotfile"):
+            target = name + "/" + {"links": ".Links", "names": ".names", "dotfile": rng.choice([".menu", ".Links.local", ".z"])}[kind]
+            fill = _link_shape(rng)
+            pad = "\n# a remark\n"
+        elif kind == "cap":
+            tree.append({"path": name + "/.cap", "kind": "dir"})
+            target = "%s/.cap/%s" % (name, rng.choice(META_FILES + ["sub", "b.html"]))
+            fill = _link_shape(rng, cap=True)
+        elif kind in ("abstract", "keywords"):
+            target = "%s/%s.%s" % (name, rng.choice(META_FILES + ["sub", "b.html"]), kind)
+            fill = lambda r: "%s, revision %02d\nsecond line: %s\n" % (r.choice(ABSTR), r.randrange(100), r.choice(WORDS5))
+            pad = "a further line\n"
+        elif kind == "html-title":
+            target = name + "/k.html"
+            fill = lambda r: "<html><head><title>%s</title></head><body>%s</body></html>\n" % (r.choice(TITLES14), r.choice(WORDS5))
+            pad = "<!-- remark -->\n"
+        else:
+            target = name + "/gophermap"
+            fill = lambda r: "i%s\t\tnull.host\t1\n%s%s\t%s\n1%s\tsub\n" % (
+                r.choice(TITLES14), r.choice("09"), r.choice(TITLES14), r.choice(META_FILES), r.choice(TITLES14))
+            pad = "ione more line\t\tnull.host\t1\n"
+        if kind != "gophermap" and rng.random() < 0.5:
+            # a second, static metadata file next to the edited one
+            tree.append({"path": name + "/.static", "data": "Path=./c.txt\nName=Named by a static file\n", "mtime": T0 + 7})
+        dirs.append({"name": name, "kind": kind, "tree": tree, "target": target, "fill": fill, "pad": pad})
+    return dirs
+
+
+META_ROUNDS = {0: 3, 1: 3, 2: 2}
+META_WAITS = {0: [0.0, 0.0, 1.2, 2.1], 1: [1.2, 1.2, 2.2, 0.3], 2: [2.2, 2.2, 3.2, 0.5]}
+
+
+def gen_meta_job(rng, life, ndirs):
+    dirs = meta_dirs(rng, ndirs)
+    keys = rng.sample(ALLKEYS, 6)
+    if not any(k.endswith("$") for k in keys):
+        keys[0] = "gopherplus$"             # the only syntax that shows abstracts and other attribute blocks
+    cur = {}
+    padded = {}
+    ops = []
+    for i, d in enumerate(dirs):
+        cur[i] = d["fill"](rng)
+        padded[i] = False
+        e = {"path": d["target"], "data": cur[i]}
+        if rng.random() < 0.5:
+            e["mtime"] = T0 + 9
+        d["tree"].append(e)
+
+    def other(i, samelen):
+        d = dirs[i]
+        for _ in range(50):
+            v = d["fill"](rng)
+            pd = padded[i] if samelen else not padded[i]
+            if pd:
+                v += d["pad"]
+            if v != cur[i]:
+                break
+        assert (len(v) == len(cur[i])) == samelen or v == cur[i], (v, cur[i])
+        cur[i] = v
+        padded[i] = pd
+        return v
+
+    def edit(i, natural_ok):
+        samelen = rng.random() < 0.85
+        how = rng.choice(["rplus", "rplus", "rplus", "trunc", "trunc", "replace"])
+        mts = ["restore", "restore", "same-second"] + (["natural", "natural"] if natural_ok else ["natural"])
+        mt = rng.choice(mts)
+        return {"op": "edit", "dir": i, "path": dirs[i]["target"], "data": other(i, samelen), "how": how, "mtime": mt,
+                "len": "same" if samelen else "other", "frac_ns": rng.randrange(10 ** 9)}
+
+    L = lambda i: {"op": "list", "dir": i, "key": rng.choice(keys)}
+    rounds = META_ROUNDS[life]
+    waits = [rng.choice(META_WAITS[life]) for _ in range(rounds)]
+    waits[rng.randrange(rounds)] = META_WAITS[life][0 if life else 2]      # at least one beyond the lifetime / into another second
+    for rd in range(rounds):
+        order = list(range(len(dirs)))
+        rng.shuffle(order)
+        # a few directories get an ordinary save (new length or not, the kernel's timestamp) early in a clock second:
+        # what follows for them (a listing, an edit) falls into the same second as the save
+        fresh = set(order[:rng.randrange(0, 5)])
+        if fresh:
+            ops.append({"op": "sync"})
+        for i in order:
+            if i in fresh:
+                ops.append({"op": "edit", "dir": i, "path": dirs[i]["target"], "data": other(i, rng.random() < 0.5), "how": "trunc",
+                            "mtime": "natural", "len": "any", "frac_ns": 0})
+            if rng.random() < 0.85:
+                ops.append(L(i))
+            if rng.random() < 0.1:
+                ops.append({"op": "probe", "dir": i, "key": rng.choice(PROBES)[0]})
+            ops.append(edit(i, i in fresh))
+            if rng.random() < 0.5:
+                ops.append(L(i))
+            if rng.random() < 0.15:
+                ops.append(edit(i, False))
+        if waits[rd]:
+            ops.append({"op": "wait", "s": waits[rd]})
+        rng.shuffle(order)
+        for i in order:
+            for _ in range(rng.choice([1, 1, 2])):
+                ops.append(L(i))
+    return {"op": "c10_meta", "life": life, "ops": ops,
+            "dirs": [{"name": d["name"], "kind": d["kind"], "tree": d["tree"], "target": d["target"]} for d in dirs],
+            "protokeys": [{k: v for k, v in protokeys("/" + d["name"]).items()
+                           if any(o["op"] == "list" and o["dir"] == i and o["key"] == k for o in ops)} for i, d in enumerate(dirs)],
+            "probekeys": [probekeys("/" + d["name"]) for d in dirs]}
+
+
+def meta_streams(job, res):
+    """-> list of (dir index, events, snaps, timing_ok, raw results) for one executed c10_meta job."""
+    out = []
+    for i, st in enumerate(res["streams"]):
+        events, snaps, timing_ok = digest_events(job, st)
+        out.append((i, events, snaps, timing_ok, st))
+    return out
+
+
+def run_meta(chk, jobs):
+    """Executes the jobs (each in its own long-lived driver process); a job most of whose streams ran into a timing
+    problem (slow request, cache write across a second boundary) is run once more.  -> [(job, streams)], dropped streams"""
+    done = []
+    pending = list(jobs)
+    for attempt in range(2):
+        if not pending:
+            break
+        res = impl_run_parallel(pending, chunks=len(pending))
+        again = []
+        for job, r in zip(pending, res):
+            if not r["ok"]:
+                raise RuntimeError(r["err"] + "\n" + r.get("tb", ""))
+            streams = meta_streams(job, r["res"])
+            nbad = sum(1 for s in streams if not s[3])
+            if attempt == 0 and nbad * 3 > len(streams):
+                again.append(job)
+            else:
+                done.append((job, streams))
+        pending = again
+    return done
+
+
+def evaluate_meta(chk, done):
+    """Oracle + K over the per-directory streams.  -> (found, k_broken, detail)"""
+    found = False
+    stats = {"jobs": len(done), "directories": 0, "streams_dropped_for_timing": 0, "listings": 0, "hits": 0, "regenerated": 0,
+             "edits": 0, "edits_leaving_inode_second_and_size_unchanged": 0, "edits_by_kind": {}, "edits_by_how": {},
+             "regenerated_after_an_invisible_edit": 0, "by_lifetime": {}}
+    cases = []
+    case_of = []
+    reported = set()
+    for job, streams in done:
+        life = job["life"]
+        for i, events, snaps, timing_ok, raw in streams:
+            stats["directories"] += 1
+            if not timing_ok:
+                stats["streams_dropped_for_timing"] += 1
+                continue
+            kind = job["dirs"][i]["kind"]
+            stats["by_lifetime"][str(life)] = stats["by_lifetime"].get(str(life), 0) + 1
+            invisible = False
+            for r in raw:
+                if r["op"] == "mut":
+                    stats["edits"] += 1
+                    stats["edits_by_kind"][kind] = stats["edits_by_kind"].get(kind, 0) + 1
+                    hk = r["edit"]["how"] + "/" + r["edit"]["mtime"] + "/" + r["edit"]["len"]
+                    stats["edits_by_how"][hk] = stats["edits_by_how"].get(hk, 0) + 1
+                    if r["stamp_before"] == r["stamp_after"]:
+                        stats["edits_leaving_inode_second_and_size_unchanged"] += 1
+                        invisible = True
+                elif r["op"] == "list":
+                    stats["listings"] += 1
+                    hit = (not r["opened_w"]) and r["opened_r"] and not r["crashed"]
+                    stats["hits" if hit else "regenerated"] += 1
+                    if invisible and not hit:
+                        stats["regenerated_after_an_invisible_edit"] += 1
+                        invisible = False
+                    chk.count(("meta", kind, life, r["key"], r["hash"]), nontrivial=True)
+            bad = oracle(life, events, snaps)
+            for tag, idx, why in bad:
+                found = True
+                if (tag, kind) in reported or len(reported) >= 8:
+                    continue
+                reported.add((tag, kind))
+                ev = events[idx]
+                chk.violation({"what": why + " -- directory /%s, whose metadata file %s (%s) is edited in place while ONE server process "
+                                             "keeps running; expected listings come from a fresh interpreter listing a copy of the directory"
+                                             % (job["dirs"][i]["name"], job["dirs"][i]["target"], kind),
+                               "lifetime_s": life, "directory": i, "failing_event_index": idx,
+                               "failing_request": {"protocol": ev.get("key"), "response_head_latin1": ev.get("head"),
+                                                   "exception": ev.get("exc"), "log": ev.get("log"), "time_ms": ev.get("tv"),
+                                                   "rewrote_cache": ev.get("opened_w")},
+                               "job": job, "events": [{k: v for k, v in e.items() if k not in ("head",)} for e in events]}, tag=tag)
+            # the model is the DirHandler cache machine: a directory with a gophermap is answered by the gophermap handler, which
+            # has no cache (every answer generated) -- judged by the oracle only
+            if kind == "gophermap":
+                stats["streams_without_cache_oracle_only"] = stats.get("streams_without_cache_oracle_only", 0) + 1
+            elif not any(r.get("crashed") for refs in snaps for r in refs.values()):
+                cases.append(coq_case(life, events, snaps))
+                case_of.append((job, i))
+    mism, err, nsh = coq_eval("C10", "k_meta", "Lib.Str Corr.K10", "chk_hist", cases, shard=40) if cases else ([], None, 0)
+    return found, bool(mism or err), {"mismatching_streams": [{"life": case_of[j][0]["life"], "directory": case_of[j][0]["dirs"][case_of[j][1]],
+                                                              "case": cases[j][:3000]} for j in mism[:5]], "errors": err}, \
+        dict(stats, cases=len(cases), shards=nsh, mismatches=len(mism), errors=[err] if err else [])
+
+
+# ----------------------------------------------------------------------------
 # reading the implementation's answers
 # ----------------------------------------------------------------------------
 def digest_events(job, results):
@@ -580,6 +854,21 @@ def run(tier):
                                "server did not write for that directory): it differs from the listing of the same archive without it",
                        "first": zd["bad"][0], "all": zd["bad"], "job": zj}, tag="foreign-cache-file-served")
     chk.coverage["correspondence"]["histories_dropped_for_timing"] = dropped
+    # ---- metadata edited in place while one process keeps serving; references from a fresh interpreter ----
+    mjobs = []
+    for life in (0, 1, 2):
+        for _ in range(4 if tier == "thorough" else 2):
+            mjobs.append(gen_meta_job(rng, life, 10 if tier == "thorough" else 8))
+    mdone = run_meta(chk, mjobs)
+    mfound, mk_broken, mk_detail, mstats = evaluate_meta(chk, mdone)
+    found = found or mfound
+    chk.coverage["metadata_edited_in_place"] = dict(mstats, note=(
+        "one driver process per job serves 8-10 directories (shipped handler list: UMNDirHandler, gophermap, HTML titles) "
+        "through a history of real waits on both sides of lifetimes 0, 1, 2 s; between listings one metadata file per "
+        "directory (.Links, .names, another dot file, .cap/<file>, .abstract/.keywords sidecar, an HTML title, gophermap) is "
+        "edited by open('r+b') / open('wb') / rename-over, to text of the same or another length, the mtime left to the "
+        "kernel, put back (os.utime) or moved inside the same second; expected listings are those a FRESH interpreter "
+        "(forked per snapshot before serving anything) gives for a copy of the directory taken at each edit"))
     j0, e0, s0 = done[0]
     chk.sample({"kind": "history", "lifetime_s": j0["life"], "ops": [o if o["op"] != "mut" else {"op": "mut", "kind": o.get("kind")} for o in j0["ops"]],
                 "observed": [{"protocol": e["key"], "class": ["hit", "miss", "empty"][cls_of(e)], "response_head": e["head"][:60]}
@@ -595,6 +884,8 @@ def run(tier):
                             "replaced an existing cache file")
     if k_broken:
         chk.correspondence_broken("K10 (cache machine vs. DirHandler.loadcache/savecache)", k_detail, found)
+    if mk_broken:
+        chk.correspondence_broken("K10 (cache machine vs. the real cache, metadata edited in place)", mk_detail, found)
     chk.finish_proofs(found)
     chk.assumptions += [
         "pickle round trip of an entry list is the identity (Section hypothesis of the theorems; exercised by every cache hit in K)",
@@ -606,6 +897,8 @@ def run(tier):
         "(HTTP Last-Modified masked; the directory's own .abstract is not mutated)",
         "cacheless reference listings come from the same code with an unwritable cache path, run on a mirror of the tree "
         "(same mutations and ageing) in which no cache file ever exists",
+        "in-place metadata leg: a copy of a directory (shutil.copytree, timestamps preserved, cache file left out) lists like the "
+        "directory itself; the fresh interpreter runs the same code under the same configuration",
     ]
     return chk.finish("proof")
 
@@ -623,6 +916,16 @@ def replay(path):
         print(json.dumps(r["res"]["bad"][:2], indent=1)[:2000])
         print("REPRODUCED" if r["res"]["nbad"] else "not reproduced")
         return 1 if r["res"]["nbad"] else 0
+    if job.get("op") == "c10_meta":
+        nbad = 0
+        for i, events, snaps, timing_ok, raw in meta_streams(job, r["res"]):
+            for tag, idx, why in oracle(job["life"], events, snaps):
+                nbad += 1
+                if nbad <= 10:
+                    print("REPRODUCED", tag, "directory", job["dirs"][i]["name"], "event", idx, why)
+        if not nbad:
+            print("not reproduced")
+        return 1 if nbad else 0
     events, snaps, timing_ok = digest_events(job, r["res"]["results"])
     bad = oracle(job["life"], events, snaps)
     for tag, idx, why in bad:
